@@ -38,7 +38,12 @@ Mechanism keys (structural; first failing sub-check of a step decides):
                                       gc-partner/.../TypeError); unlink|drop/exception-channel/<Exc>
   ping-pong/<op>, spurious-notification/<op>, <op>/unraisable/<Exc>, drop/partner-kept-alive
 <op> = assign | assign-list | list-mutation/{item,simple-slice,reversed-slice,extended-slice,bulk}
-       | link | link-oneway | unlink | drop.
+       | link | link-oneway | unlink | drop | redefine.
+  redef/add-trait/<key>, redef/remove-add/<key>   the same sub-checks in a history that re-defined
+                                      an attribute at run time (strata redef / redefrm, see
+                                      _c20_redef.py); redef/remove-add/forwarding-lost = a change
+                                      of, or passing through, a removed-and-re-added attribute
+                                      does not reach its partners (open finding)
 
 See DESIGN.md section 4 / C20.
 """
@@ -49,6 +54,8 @@ import weakref
 
 from traits.api import (HasTraits, Int, Str, List, Any, Range, String, TraitError,
                         push_exception_handler)
+
+from vf.monitors import _c20_redef
 
 try:
     from traits.api import ComparisonMode
@@ -85,7 +92,18 @@ META = {
              "with gc.collect() injected before the k-th statement executed inside the traits package "
              "(sys.monitoring LINE events) for EVERY k; judged: nothing raised, nothing on the "
              "exception channels, survivor equal, victims dead, follow-up changes forwarded in both "
-             "directions (a lock left set shows there). distinct_nontrivial counts distinct (op class, source "
+             "directions (a lock left set shows there). Strata redef / redefrm (own histories on top): the "
+             "DEFINITION of a synchronised attribute changes at run time between the link and later "
+             "operations - HasTraits.add_trait over the linked name (class-level definitions and "
+             "attributes that were themselves added to the instance at run time; same type, other List "
+             "inner type / length bound / comparison mode, other scalar type: Range, CInt, CStr, "
+             "String(maxlen), Any), in redefrm also remove_trait + add_trait of linked run-time "
+             "attributes (value written back by the harness) - on the mutual side, the one-way source "
+             "or the one-way target, repeatedly, mixed with every other operation incl. unlinking and "
+             "partner collection; the link graph of the model is unchanged by a re-definition, so "
+             "every later assignment and in-place mutation on either side must still converge, "
+             "one-way targets still must not write back, removed links still must be silent. "
+             "distinct_nontrivial counts distinct (op class, source "
              "context, reach size class, mutual-class size class, alias involved, outcome class, "
              "notified-node count class) signatures of steps in which something changed, was "
              "propagated, was raised or arrived on an exception channel."),
@@ -124,7 +142,28 @@ META = {
                   "gcpoint_followups_both_directions": 18000, "gcpoint_victims_died": 30000,
                   "gcpoint_links_made_during_collection": 300,
                   "gcpoint_unlinks_during_collection": 900,
-                  "gcpoint_distinct_effective_lines": 1500},
+                  "gcpoint_distinct_effective_lines": 1500,
+                  "histories_redef": 900, "histories_redefrm": 280,
+                  "redefinitions_add_trait": 2700, "redefinitions_remove_add": 600,
+                  "redefinitions_add_over_class_definition": 1200,
+                  "redefinitions_add_over_runtime_definition": 1500,
+                  "redefinitions_list": 1900, "redefinitions_scalar": 1300,
+                  "redefinitions_of_mutual": 1900, "redefinitions_of_oneway_source": 450,
+                  "redefinitions_of_oneway_target": 430, "redefinitions_relation_same": 950,
+                  "redefinitions_relation_inner": 1000, "redefinitions_relation_bounds": 250,
+                  "redefinitions_relation_comparison": 180,
+                  "redefinitions_relation_scalar-type": 850, "redefinitions_repeated": 750,
+                  "list_mutations_propagated_from_redefined": 1200,
+                  "list_mutations_propagated_into_redefined": 1350,
+                  "list_assignments_propagated_from_redefined": 200,
+                  "list_assignments_propagated_into_redefined": 240,
+                  "scalar_assignments_propagated_from_redefined": 240,
+                  "scalar_assignments_propagated_into_redefined": 280,
+                  "oneway_propagations_from_redefined_source": 180,
+                  "oneway_propagations_into_redefined_target": 200,
+                  "propagations_checked_after_add_trait": 1800,
+                  "propagations_checked_after_remove_add": 140,
+                  "changes_of_redefined_after_unlink_or_partner_gc": 550},
         "thorough": {"evaluations": 1900000, "propagations_checked": 400000,
                      "mutual_list_mutations": 150000, "oneway_assignments": 34000,
                      "reverse_direction_checks": 88000, "ops_after_unlink": 100000,
@@ -159,7 +198,31 @@ META = {
                      "gcpoint_followups_both_directions": 18000, "gcpoint_victims_died": 30000,
                      "gcpoint_links_made_during_collection": 300,
                      "gcpoint_unlinks_during_collection": 900,
-                     "gcpoint_distinct_effective_lines": 1500},
+                     "gcpoint_distinct_effective_lines": 1500,
+                     "histories_redef": 13500, "histories_redefrm": 4200,
+                     "redefinitions_add_trait": 40500, "redefinitions_remove_add": 9000,
+                     "redefinitions_add_over_class_definition": 18000,
+                     "redefinitions_add_over_runtime_definition": 22500,
+                     "redefinitions_list": 28500, "redefinitions_scalar": 19500,
+                     "redefinitions_of_mutual": 28500, "redefinitions_of_oneway_source": 6750,
+                     "redefinitions_of_oneway_target": 6450,
+                     "redefinitions_relation_same": 14250,
+                     "redefinitions_relation_inner": 15000,
+                     "redefinitions_relation_bounds": 3750,
+                     "redefinitions_relation_comparison": 2700,
+                     "redefinitions_relation_scalar-type": 12750,
+                     "redefinitions_repeated": 11250,
+                     "list_mutations_propagated_from_redefined": 18000,
+                     "list_mutations_propagated_into_redefined": 20250,
+                     "list_assignments_propagated_from_redefined": 3000,
+                     "list_assignments_propagated_into_redefined": 3600,
+                     "scalar_assignments_propagated_from_redefined": 3600,
+                     "scalar_assignments_propagated_into_redefined": 4200,
+                     "oneway_propagations_from_redefined_source": 2700,
+                     "oneway_propagations_into_redefined_target": 3000,
+                     "propagations_checked_after_add_trait": 27000,
+                     "propagations_checked_after_remove_add": 2100,
+                     "changes_of_redefined_after_unlink_or_partner_gc": 8250},
     },
     "assumptions": [
         "the model (directed link graph + value semantics of assignment, slice semantics of a "
@@ -173,6 +236,11 @@ META = {
         "what a replay does to a partner that was out of step is unspecified; attributes are "
         "only linked when each accepts the other's current value (a refused equalising "
         "assignment raises out of sync_trait, which the statement does not cover)",
+        "a re-definition of a linked attribute (add_trait over the name, remove_trait + add_trait) "
+        "is neither of the two ways the statement gives for a link to end, so the link is "
+        "required to survive it; only value-preserving re-definitions are drawn (the new "
+        "definition accepts every value the histories write, a list stays a list), and the "
+        "harness writes the value back after remove_trait + add_trait",
         "which side's value wins when a link is created is not specified by the statement; the "
         "oracle only requires mutual classes to be equal afterwards and unrelated nodes untouched",
     ],
@@ -188,13 +256,16 @@ SLOTS = ("A", "B", "C")
 STRS = ("", "a", "b", "ab")
 
 
-class Base(HasTraits):
+class Root(HasTraits):
     uid = Int
+    me = Any
+
+
+class Base(Root):
     v = Int
     w = Int
     s = Str
     t = Str
-    me = Any
 
 
 class Node(Base):
@@ -272,6 +343,14 @@ class NodeNarrow2(Node):
     ys = List(Int, maxlen=3)
 
 
+class NodeRT(Base):
+    """The two lists are defined on the instance at run time (add_trait), not by the class."""
+
+
+class NodeRTAll(Root):
+    """All six attributes are defined on the instance at run time."""
+
+
 # what a narrow attribute accepts (whole value; lists: length and every item)
 CONSTRAINTS = {
     "narrow": {"v": lambda x: 0 <= x <= 2, "w": lambda x: 1 <= x <= 3, "s": lambda x: len(x) <= 1,
@@ -294,7 +373,15 @@ FLAVOURS = {
     "cmp1": (NodeCmpOne, {"xs": [], "ys": [2, 2]}, (), ("ys",), "cmp"),
     "narrow": (NodeNarrow, {"xs": [], "ys": []}, (), (), "narrow"),
     "narrow2": (NodeNarrow2, {"xs": [], "ys": []}, (), (), "narrow"),
+    "rt": (NodeRT, {"xs": [], "ys": []}, (), (), "rt"),
+    "rtall": (NodeRTAll, {"xs": [], "ys": []}, (), (), "rt"),
 }
+# names a flavour defines with add_trait after construction
+RUNTIME_NAMES = {"rt": LIST_NAMES, "rtall": ALL_NAMES}
+# re-definition strata: class-level and run-time definitions side by side (equality comparison
+# only: the re-definition itself may switch a list to identity comparison)
+REDEF_WEIGHTS = (("plain", 24), ("dyn", 8), ("sub", 6), ("static", 8), ("rt", 27), ("rtall", 27))
+REDEFRM_WEIGHTS = (("rt", 42), ("rtall", 46), ("plain", 12))
 # heterogeneous-partner stratum: narrow and plain objects side by side
 HETERO_WEIGHTS = (("narrow", 30), ("narrow2", 25), ("plain", 25), ("dyn", 10), ("static", 10))
 FLAVOUR_WEIGHTS = (("plain", 26), ("dyn", 14), ("dyn1", 10), ("sub", 12), ("sub1", 8),
@@ -315,7 +402,7 @@ def _legacy_exc(obj, trait_name, old, new):
     e = sys.exc_info()[1]
     uid = None
     try:
-        uid = obj.__dict__.get("uid") if isinstance(obj, Base) else None
+        uid = obj.__dict__.get("uid") if isinstance(obj, Root) else None
     except Exception:
         pass
     CHAN.append((uid, _base(trait_name), type(e).__name__))
@@ -327,7 +414,7 @@ def _obs_exc(event):
     name = getattr(event, "name", None)
     try:
         obj = getattr(event, "object", None)
-        uid = obj.__dict__.get("uid") if isinstance(obj, Base) else None
+        uid = obj.__dict__.get("uid") if isinstance(obj, Root) else None
     except Exception:
         pass
     CHAN.append((uid, _base(name), type(e).__name__))
@@ -530,8 +617,9 @@ class World:
         self.stratum = stratum
         self.lens = lens
         self.hetero = stratum == "hetero"
-        self.allow_ext = stratum in ("ext", "all", "hetero")
-        self.allow_drop = stratum in ("gc", "all")
+        self.redef = stratum in ("redef", "redefrm")
+        self.allow_ext = stratum in ("ext", "all", "hetero") or self.redef
+        self.allow_drop = stratum in ("gc", "all") or self.redef
         self.allow_cycle = stratum == "cyclic"
         self.obj = {}          # slot -> Node
         self.uid = {}          # slot -> serial
@@ -552,6 +640,11 @@ class World:
         self.recycled = set()  # serials of objects living where a collected partner lived
         self.next_uid = 1
         self.trace = []
+        self.runtime = set()   # nodes whose definition was added to the instance at run time
+        self.redefined = {}    # node -> 'add' | 'readd' (latest re-definition of a live node)
+        self.readded = set()   # nodes that went through remove_trait + add_trait
+        self.always_now = set()  # nodes re-defined with a comparison mode that always notifies
+        self.rec = {}          # serial -> recorder
 
     # -- graph helpers ---------------------------------------------------------
     def live_nodes(self):
@@ -595,6 +688,8 @@ class World:
         """'always' when every assignment to the node notifies (comparison_mode identity or
         none: a trait list is copied on assignment, so the new value is never the old object),
         'eq' when only a different value does."""
+        if n in self.redefined:
+            return "always" if n in self.always_now else "eq"
         return "always" if n[1] in FLAVOURS[self.flavour[n[0]]][3] else "eq"
 
     def tags(self, nodes):
@@ -609,8 +704,12 @@ class World:
                     out.add("sub")
             if f[4] == "static":
                 out.add("static")
-            if m[1] in f[3]:
+            if self.mode(m) == "always":
                 out.add("always")
+            if m in self.redefined:
+                out.add("redefined")
+            elif m in self.runtime:
+                out.add("runtime")
         return out
 
     def add_edge(self, e):
@@ -785,8 +884,32 @@ class World:
     def fail(self, key, what, extra=None):
         msg = "%s; op=%r after %d ops; stratum=%s lens=%s" % (
             what, self.trace[-1] if self.trace else None, len(self.trace) - 1, self.stratum, self.lens)
-        self.ctx.violation(key, msg, self.witness(extra))
+        self.ctx.violation(self.redef_key(key), msg, self.witness(extra))
         raise Stop()
+
+    def redef_key(self, key):
+        """A violation in a history that re-defined an attribute names the kind of
+        re-definition; the one mechanism of the open finding of stratum "redefrm" (a change of,
+        or passing through, a removed-and-re-added attribute is not forwarded) gets one key."""
+        if not self.redefined and not self.readded:
+            return key
+        if not self.readded:
+            return "redef/add-trait/" + key
+        op = self.trace[-1] if self.trace else None
+        lost = (key.endswith(("/diverged", "/mutual-class-unequal"))
+                or key in ("gc-partner/lost-update-after-resync", "link/not-equalised"))
+        if lost and op and op[0] in ("set", "mut", "link") and op[1] in self.uid:
+            # the operated attribute; for a link both endpoints receive an equalising
+            # assignment that has to travel on through their other partners
+            ends = {(self.uid[op[1]], op[2])}
+            if op[0] == "link" and op[3] in self.uid:
+                ends.add((self.uid[op[3]], op[4]))
+            through = set(ends)
+            for e in ends:
+                through |= self.reach(e)
+            if any(m in self.readded and self.outdeg(m) for m in through):
+                return "redef/remove-add/forwarding-lost"
+        return "redef/remove-add/" + key
 
     # -- generic judgement -----------------------------------------------------------
     def judge(self, opclass, src, raised, expected_exc, exp, adopt, may_call, reach,
@@ -933,17 +1056,29 @@ class World:
     # -- operations --------------------------------------------------------------------
     def do_fresh(self, op):
         _, slot, selfref, init, flavour, lazy = op
+        if self.redef:
+            # what add_trait does to a default nobody has read yet is not this property's
+            # business: every value is materialised before anything is re-defined
+            lazy = False
         uid = self.next_uid
         self.next_uid += 1
         cls, defaults = FLAVOURS[flavour][0], FLAVOURS[flavour][1]
         self.flavour[uid] = flavour
-        o = cls(uid=uid, **{k: (list(v) if isinstance(v, list) else v) for k, v in init.items()})
+        rt_names = RUNTIME_NAMES.get(flavour, ())
+        o = cls(uid=uid, **{k: (list(v) if isinstance(v, list) else v) for k, v in init.items()
+                            if k not in rt_names})
+        for name in rt_names:
+            # the attribute is defined on the instance, after construction
+            o.add_trait(name, _c20_redef.ORIGINAL[GROUP[name]]())
+            self.runtime.add((uid, name))
+            if name in init:
+                setattr(o, name, list(init[name]) if isinstance(init[name], list) else init[name])
         if selfref:
             o.me = o           # cyclic garbage: only gc.collect() can reclaim it
         if id(o) in self.dead_addresses:
             self.recycled.add(uid)
             self.ctx.count("objects_at_recycled_address")
-        rec = make_recorder(uid)
+        rec = self.rec[uid] = make_recorder(uid)
         for name in ALL_NAMES:
             o.on_trait_change(rec, name)
         for name in LIST_NAMES:
@@ -1173,6 +1308,53 @@ class World:
         self.judge("drop", None, raised, None, dict(self.val), set(), set(), set(), "linked")
         self.ctx.sig("drop", min(orphaned, 3), min(len(had_any), 3))
 
+    def do_redef(self, op):
+        """Re-definition of an attribute at run time.  The link graph of the model does not
+        change: the statement knows no way for a link to end but remove=True and the collection
+        of the partner.  Nothing may change value, nobody is notified."""
+        _, slot, name, spec, how = op
+        uid = self.uid[slot]
+        n = (uid, name)
+        o = self.obj[slot]
+        g = GROUP[name]
+        old = self.val[n]
+        role = _c20_redef.role(self, n)
+        level = "runtime" if n in self.runtime else "class"
+        again = n in self.redefined
+        raised = None
+        try:
+            if how == "readd":
+                o.remove_trait(name)
+            o.add_trait(name, _c20_redef.make(g, spec))
+            if how == "readd":
+                # remove_trait drops the value and every handler with the definition: the
+                # harness writes the value back and re-attaches its own recorder
+                setattr(o, name, list(old) if g == "list" else old)
+                o.on_trait_change(self.rec[uid], name)
+                if g == "list":
+                    o.on_trait_change(self.rec[uid], name + "_items")
+        except Exception as e:  # noqa: BLE001
+            raised = (type(e), str(e)[:200])
+        self.redefined[n] = how
+        if how == "readd":
+            self.readded.add(n)
+        self.runtime.add(n)
+        self.always_now.discard(n)
+        if _c20_redef.always(g, spec):
+            self.always_now.add(n)
+        self.judge("redefine", None, raised, None, dict(self.val), set(),
+                   {n: 1} if how == "readd" else {}, set(), "linked")
+        ctx = self.ctx
+        ctx.count("redefinitions")
+        ctx.count("redefinitions_add_trait" if how == "add" else "redefinitions_remove_add")
+        ctx.count("redefinitions_%s_over_%s_definition" % (how, level))
+        ctx.count("redefinitions_" + ("list" if g == "list" else "scalar"))
+        ctx.count("redefinitions_relation_" + _c20_redef.relation(g, spec))
+        ctx.count("redefinitions_of_" + role.replace("-", "_"))
+        if again:
+            ctx.count("redefinitions_repeated")
+        ctx.sig("redefine", how, level, g, spec, role, again)
+
     # -- counters / signatures --------------------------------------------------------
     def account(self, opclass, n, src_ctx, reach, changed, really, raised, fired=()):
         ctx = self.ctx
@@ -1189,6 +1371,26 @@ class World:
                 ctx.count("list_mutations_dyn_partner_only")
             if "dyn" in oth_tags and "dyn" in src_tags:
                 ctx.count("list_mutations_dyn_both_sides")
+        if self.redefined and really and others:
+            kind = ("list_mutations" if opclass.startswith("list-mutation") else
+                    "list_assignments" if opclass == "assign-list" else "scalar_assignments")
+            hows = set()
+            if n in self.redefined:
+                ctx.count(kind + "_propagated_from_redefined")
+                hows.add(self.redefined[n])
+                scc_n = self.scc(n)
+                if any(t not in scc_n for t in self.out(n)):
+                    ctx.count("oneway_propagations_from_redefined_source")
+            into = [m for m in others if m in self.redefined]
+            if into:
+                ctx.count(kind + "_propagated_into_redefined")
+                hows.update(self.redefined[m] for m in into)
+                if any(m not in self.scc(n) for m in into):
+                    ctx.count("oneway_propagations_into_redefined_target")
+            for h in hows:
+                ctx.count("propagations_checked_after_" + ("add_trait" if h == "add" else "remove_add"))
+        if self.redefined and src_ctx in ("unlinked", "gc-partner") and really and n in self.redefined:
+            ctx.count("changes_of_redefined_after_unlink_or_partner_gc")
         if opclass == "assign-list" and len(fired) > 1 and "always" in (src_tags | oth_tags):
             ctx.count("always_notifying_assignments_propagated")
             if not really:
@@ -1321,6 +1523,11 @@ def fresh_op(rng, slot, eq_only):
             rng.random() < 0.5)
 
 
+def redef_fresh_op(rng, slot, stratum):
+    return ("fresh", slot, rng.random() < 0.4, init_values(rng),
+            pick_flavour(rng, True, REDEFRM_WEIGHTS if stratum == "redefrm" else REDEF_WEIGHTS), False)
+
+
 def gen_value(rng, name, cur, p_equal=0.15, maxlen=4):
     g = GROUP[name]
     if g == "int":
@@ -1334,6 +1541,15 @@ def gen_value(rng, name, cur, p_equal=0.15, maxlen=4):
 
 def pick_node(rng, w, group=None, prefer_linked=0.75):
     nodes = [n for n in w.live_nodes() if group is None or GROUP[n[1]] == group]
+    if w.redefined and rng.random() < 0.35:
+        # a re-defined attribute that is linked, or one of its partners
+        near = set()
+        for (s, t) in w.edges:
+            if s in w.redefined or t in w.redefined:
+                near.update((s, t))
+        near = sorted(near & set(nodes))
+        if near:
+            return rng.choice(near)
     if w.hetero and rng.random() < 0.45:
         hubs = [n for n in nodes if w.outdeg(n) >= 2]
         if hubs:
@@ -1399,7 +1615,13 @@ def gen_unlink(rng, w):
 def gen_op(rng, w, step):
     free = [s for s in SLOTS if s not in w.obj]
     if len(w.obj) < 2:
+        if w.redef:
+            return redef_fresh_op(rng, free[0], w.stratum)
         return fresh_op(rng, free[0], w.allow_cycle)
+    if w.redef and w.edges and rng.random() < (0.11 if w.redefined else 0.5):
+        op = _c20_redef.gen(rng, w, GROUP)
+        if op:
+            return op
     while w.plan:
         op = w.plan.pop(0)
         if op[1] in w.obj and op[3] in w.obj:
@@ -1432,6 +1654,8 @@ def gen_op(rng, w, step):
                           rng.random() < 0.3)]
         return ("drop", slot)
     if free and r < (0.32 if w.allow_drop else 0.215):
+        if w.redef:
+            return redef_fresh_op(rng, free[0], w.stratum)
         return hetero_fresh_op(rng, free[0]) if w.hetero else fresh_op(rng, free[0], w.allow_cycle)
     if r < 0.52:
         n = pick_node(rng, w, rng.choice(("int", "int", "str")))
@@ -1461,13 +1685,15 @@ def cyclic_prelude(rng):
 
 
 def run_history(ctx, h, stratum, lens, nops):
-    rng = ctx.rng("hist", h)
+    rng = ctx.rng("hist", h)      # h: history number, or ("rd", number) in the re-definition strata
     w = World(ctx, rng, stratum, lens)
     w.last_calls = {}
     nobj = 3 if (stratum in ("cyclic", "hetero") or rng.random() < 0.6) else 2
     if stratum == "hetero":
         script = [hetero_fresh_op(rng, SLOTS[i]) for i in range(nobj)]
         w.plan = hetero_plan(rng)
+    elif w.redef:
+        script = [redef_fresh_op(rng, SLOTS[i], stratum) for i in range(nobj)]
     else:
         script = [fresh_op(rng, SLOTS[i], stratum == "cyclic") for i in range(nobj)]
     if stratum == "cyclic" and rng.random() < 0.7:
@@ -1537,5 +1763,23 @@ def run(ctx):
             if sampled < 4 and len(trace) > 8:
                 sampled += 1
                 ctx.sample({"stratum": stratum, "lens": lens, "history": trace[:9]})
+        finally:
+            ctx.end()
+    # strata "redef" / "redefrm": the definition of a linked attribute changes at run time.
+    # Own histories on top of the budget above (own case ids and random streams), three of
+    # four re-define with add_trait only; remove_trait + add_trait (open finding) stays apart.
+    nr = ctx.scale(2400, 36000)
+    for i in range(nr):
+        if not ctx.mine(i):
+            continue
+        stratum = "redefrm" if ctx.rng("rd-stratum", i).random() < 0.25 else "redef"
+        if not ctx.begin("rd:%d" % i, {"stratum": stratum, "lens": "full"}):
+            continue
+        try:
+            trace = run_history(ctx, ("rd", i), stratum, "full", nops)
+            ctx.count("histories_" + stratum)
+            if sampled < 6 and len(trace) > 8:
+                sampled += 1
+                ctx.sample({"stratum": stratum, "lens": "full", "history": trace[:10]}, cap=6)
         finally:
             ctx.end()
